@@ -166,7 +166,7 @@ def ensure_overrides():
     for j in glob.glob(os.path.join(SPEC, "*.java")):
         c = j[:-5] + ".class"
         if not os.path.exists(c) or os.path.getmtime(c) < os.path.getmtime(j):
-            sh(["javac", "-cp", TLA_CP, "-d", SPEC, j])
+            sh(["javac", "-cp", TLA_CP + ":" + SPEC, "-d", SPEC, os.path.join(SPEC, "BigNat.java"), j])
 
 class TlcResult:
     def __init__(self, rc, out, wall):
